@@ -102,6 +102,10 @@ def run(pid, tier, deadline_s):
         for cc in ("gcc", "clang"):
             for opt in (("O0", "O2") if tier == "quick" else ("O0", "O1", "O2", "O3", "Os")):
                 tasks.append((f"hdrclient:{cc}:{opt}", "prod", "C", 0, 1))
+    if pid in ("C08", "C10"):      # the same client for the macros of this property's functions (C10: the query functions, C08: the ones that write a string)
+        for cc in ("gcc", "clang"):
+            for opt in (("O2",) if tier == "quick" else ("O0", "O2")):
+                tasks.append((f"hdrclient:{cc}:{opt}", "prod", "C", 0, 1))
     if pid == "C05":      # the printf_s directive grid, buffer, stream and stdout entry points: every failing call reports exactly once
         for grp in ("int", "float", "str", "multi"):
             for sh in range(4): tasks.append(("fmtgrid:" + grp, "prod", "C.UTF-8", sh, 4))
@@ -156,7 +160,11 @@ def run(pid, tier, deadline_s):
                 continue
             j = json.loads(ln)
             if j["t"] == "viol":
-                if name.startswith("macroclient:") or name.startswith("hdrclient:"):
+                if name.startswith("hdrclient:") and pid != "C05":
+                    f_ = j["sig"].split("|"); qry = {n for n, fl in fns if int(fl, 16) & 0x40}; allf = {n for n, fl in fns}
+                    if (pid == "C10") != (f_[1] in qry) or f_[1] not in allf: continue
+                    sig = pid + "|" + "|".join(f_[1:])
+                elif name.startswith("macroclient:") or name.startswith("hdrclient:"):
                     sig = j["sig"]
                 elif name.startswith("longmove:"):
                     sig = j["sig"]; j["case"] = "longmove " + j["case"]
